@@ -1033,7 +1033,7 @@ class presync(wrapper):
         listed = _list(values)
         tss = [ts for ts in listed if is_ts(ts)]
         callargs = inspect.getcallargs(self.function, *args, **kwargs)
-        if is_str(_idx) and _idx in callargs:
+        if is_str(_idx) and _idx in callargs and _idx.lower() not in ('inner', 'outer', 'left', 'right', 'ij', 'oj', 'lj', 'rj'): ## a join policy is never read as the name of a parameter
             index = _index(callargs[_idx])
         else:
             index = df_index(listed, _idx)
